@@ -349,6 +349,60 @@ EXTRA = {
 }
 for _k, _t in EXTRA.items():
     CHECKS[_k]["text"] = CHECKS[_k]["text"] + _t
+# extensions merged in the fifth session
+EXTRA2 = {
+ "C02": (" Extension (LoadMesh.v, gen/LoadConsts.v regenerated from the sources, Properties_C02_load.v, 14 theorems, closed under the global "
+         "context): the mesh readers FSolver / ESolver / HSolver::LoadMesh in their three variants, from the number tables of .node / .ele / "
+         ".edge / .pbc to the node, element and pbc tables the assemblers start from. For all meshes: an element side carries the replay of "
+         "the .edge table on its end-node pair (both orientations, every owner, every other side untouched); with every edge listed once "
+         "a side carries exactly the listed assignment; composed with Marker.v's round trip the solver's node / side holds exactly the "
+         "point property, boundary property and conductor the mesher encoded; 'stop' formats mark the first owner only (refuted that every "
+         "owner is marked; hsolver's choice of stop formats was the defect XLOAD-1, repaired by 6f33a99); labels = attribute - 1 or the "
+         "default label; pbc entries copied. Model vs the real loaders on real fmesher meshes and hand-made files (reversed, repeated, unknown "
+         "edges, all units, bad attributes): every number equal, coordinates bit for bit, removed files equal."),
+ "C08": (" Extension (Properties_C08_load.v, 4 theorems): a mesh the reader model loads has all corner indices in range; the readers check "
+         "none of the indices they take from mesh files (three refuted statements with witnesses; reachable only with mesh files that do not "
+         "belong to the problem). Every copy / move / mirror / rotate / scale / delete command runs in every edit mode on drawings whose lists "
+         "are exactly at vector capacity (1, 2, 4, 8 entities per kind) on the sanitizer build."),
+ "C20": (" Extension (Properties_C20_load.v): in the reader model an element attribute that names no block label is never accepted by any of the "
+         "three solvers. Scenario without circuit properties and with stale mesh files beside a previous-solution problem added."),
+ "C12": (" Extension (PointVals.v, Properties_C12_pointvalues.v, 44 theorems): the point values beyond Locate.v - FPProc::GetPointValues static "
+         "and time-harmonic, planar and axisymmetric (what the code returns there is the QUADRATIC interpolant of the stored flux 2 pi r A: "
+         "nodal at corners, continuous across edges, exact for uniform fields; that it is the linear interpolant is refuted), B = curl of "
+         "the interpolant, mu of laminated / wire materials, H = B/(mu mu0) - Hc, energy density = B.H/2, Je, losses; electrostatics and heat in "
+         "exterior regions (AECF at the point: D = eps E preserved, E scaled) and temperature-dependent conductivity at the point. "
+         "Every value of ~1100 queries per quick run bit-identical with the real post-processor classes; independent python oracle. Found and "
+         "repaired: wire-region energy read the block of mesh element 3 (c0fff43). Smoothing ON is not modelled (C06 compares smoothed field "
+         "values with closed forms at material interfaces)."),
+ "C13": (" Extensions. (1) Block integrals (IntegralsE/H/M.v, Properties_C13_integrals.v, 56 theorems): every integral type of the three "
+         "post-processors as a sum of per-element terms over the selected blocks; area = shoelace of the boundary, volume = depth x area / "
+         "Pappus, element energy = 1/2 v^T K_e v with the solver's own element matrix, W = 1/2 V^T K V = 1/2 sum V_c Q_c and W = 1/2 int A.J "
+         "for solved rows, flux linkage x current, DoEnergy of linear laminated materials (refuted for the former text of LamType 1/2 - the "
+         "defect repaired by fcf383d -, proved and positive for the repaired one); every integral and per-element field bit-identical with the "
+         "real classes (h_blockint). (2) Contour integrals (ContourInt.v, Properties_C13_contour.v, 30 theorems): contour bookkeeping, the "
+         "sampling loop and every line-integral type of the three classes; contour length = sum of segment lengths = drawn length for a "
+         "contour along drawn points, revolved area = exact frustum areas, invariance under subdivision, additivity over concatenation, "
+         "behaviour under reversal, exactly N mid-point samples per segment, exactness for fields constant along a segment, sampled B.n "
+         "telescopes to Depth x (A(first) - A(last)); contour points, sample points, element lookups and results bit-identical (h_contour). "
+         "Found and repaired: mo_lineintegral(5) indexed p[3] (a392d3d)."),
+ "C19": (" Extensions. (1) Post-processor energy densities of nonlinear materials (BHEnergy.v, Properties_C19_energy.v, 9 theorems): for "
+         "in-plane laminations DoEnergy is the integral of the reported H from 0 to |b| inside and beyond the table, isotropic, energy + "
+         "coenergy = |b| H; mixing formulas for laminations on edge; straight-line reduction; 3360 values per run bit-identical. (2) The Newton "
+         "loop of FSolver::Static2D (AsmMNL.v, Properties_C19_nl.v, 19 theorems; Properties_C05_nl.v, 7 theorems): GetBHProps of a straight-line "
+         "table is (k, 0) at every B, the first pass of every problem is the linear assembly with the initial slope, for LamType 0 EVERY pass "
+         "of the whole loop assembles the linear system of the linear material (any solver function: the full reduction-to-linear statement "
+         "for the solver), refuted for laminations on edge with fill < 1 (known finding XNL-1, probed on every run), a Newton pass solves "
+         "(S V - f) + (S + Mn)(U - V) = 0 with Mn the exact derivative term, a fixed point satisfies the nonlinear residual equations, "
+         "exit test, relaxation schedule in (1/16, 1]; per pass matrix, right-hand side, permeabilities, iterate and control variables "
+         "bit-identical (h_fsolver_nl); termination is observed (no cap in the C++), not proved."),
+ "C05": (" Extension (Properties_C05_nl.v): what one Newton pass of the nonlinear static solver solves and that its fixed points satisfy the "
+         "nonlinear discrete field equations (see C19)."),
+ "C06": (" Field values returned with default settings (smoothing on) are compared with the exact piecewise constant field at the centroids of "
+         "elements touching material interfaces, with 'nearly the same' material pairs; heat flux / surface charge on an INTERIOR line "
+         "(exact piecewise linear solution) - the case that exposed the doubled interior heat flux (6f33a99)."),
+}
+for _k, _t in EXTRA2.items():
+    CHECKS[_k]["text"] = CHECKS[_k]["text"] + _t
 PENDING = {}
 def main():
     props = [json.loads(l) for l in open(os.path.join(V, "properties.jsonl"))]
